@@ -115,6 +115,19 @@ def handleImp : Sexp → Option Sexp
       | .ok es => some (.list [strsToSexp (ss.map (·.id)), pairsToSexp (sortedPairs es)])
       | .error e => some (impErrToSexp e)
     | none => some (Sexp.mk "bad-op" [Sexp.str "imp-dot"])
+  | .list [.atom "imp-dot-text", .atom u, pre, post, ss] =>
+    -- the whole text of the export with the stringifier `s ↦ <id>`; the reply lists the lines with
+    -- the block of edge lines sorted (their order is Python's set iteration order)
+    match strsOf? pre, strsOf? post, streamOfSexp? ss with
+    | some pre, some post, some ss =>
+      match dotEdges ss with
+      | .ok es =>
+        let str := fun (s : Stmt) => "<" ++ s.id ++ ">"
+        let edgeLines := impSortedStrs (es.map dotEdgeLine)
+        some (strsToSexp (["digraph code {"] ++ pre ++ ["rankdir=BT;"] ++
+          ss.map (dotNodeLine (u == "true") str) ++ edgeLines ++ post ++ ["}"]))
+      | .error e => some (impErrToSexp e)
+    | _, _, _ => some (Sexp.mk "bad-op" [Sexp.str "imp-dot-text"])
   | .list [.atom "imp-gen", ex, based] =>
     match strsOf? ex, strsOf? based with
     | some ex, some based => some (.list (genSteps (pyGen.init ex) based))
